@@ -39,10 +39,11 @@ func TestPubSubChurn(t *testing.T) {
 		bulk := k > 1 && rapid.IntRange(0, 3).Draw(t, "bulkLeave") == 0
 		nB := rapid.IntRange(0, 3).Draw(t, "extraSenders")
 		joiner := rapid.Bool().Draw(t, "joiner")
+		inspectors := rapid.SampledFrom([]int{0, 0, 1, 3}).Draw(t, "inspectors") // goroutines polling Add(0) throughout
 		offL := rapid.IntRange(0, 63).Draw(t, "offLeavers")
 		offB := rapid.IntRange(0, 63).Draw(t, "offSenders")
 		offN := rapid.IntRange(0, 63).Draw(t, "offJoiner")
-		trace := []string{fmt.Sprintf("rounds=%d leavers=%d bulk=%v extraSenders=%d joiner=%v offsets=%d/%d/%d", rounds, k, bulk, nB, joiner, offL, offB, offN)}
+		trace := []string{fmt.Sprintf("rounds=%d leavers=%d bulk=%v extraSenders=%d joiner=%v inspectors=%d offsets=%d/%d/%d", rounds, k, bulk, nB, joiner, inspectors, offL, offB, offN)}
 		vkit.CaseStart(func() string { return strings.Join(trace, " ; ") })
 		var (
 			mu       sync.Mutex
@@ -66,6 +67,7 @@ func TestPubSubChurn(t *testing.T) {
 				mu.Unlock()
 			}
 		}
+		k0 := k
 		rapid.SyncTest(t, func(t *rapid.T) {
 			defer guard("round driver") // its own Add calls hit a broken instance first
 			x := bigbuff.NewChanPubSub(make(chan int))
@@ -75,6 +77,22 @@ func TestPubSubChurn(t *testing.T) {
 					_ = dummy.Load()
 				}
 			}
+			var stopInspect atomic.Bool
+			var iw sync.WaitGroup
+			for k := 0; k < inspectors; k++ {
+				iw.Add(1)
+				go func() {
+					defer iw.Done()
+					defer guard("inspector (Add(0))")
+					for !stopInspect.Load() {
+						if n := x.Add(0); n < 0 || n > k0+1 {
+							panic(fmt.Sprintf("Add(0)=%d with at most %d subscriptions ever registered at once", n, k0+1))
+						}
+						runtime.Gosched()
+					}
+				}()
+			}
+			defer func() { stopInspect.Store(true); iw.Wait() }()
 			for i := 0; i < rounds && len(panics) == 0; i++ {
 				tokA := 1000*i + 1
 				x.Add(k)
@@ -169,7 +187,7 @@ func TestPubSubChurn(t *testing.T) {
 		})
 		bigbuff.VerifSetHook(nil)
 		if len(panics) > 0 {
-			vkit.Fail(t, "C07/panic-in-contract-use", "panic(s) although every party followed the contract: %v\ncase: %v", panics, trace)
+			vkit.Fail(t, psfPanicSig(panics), "panic(s) although every party followed the contract: %v\ncase: %v", panics, trace)
 		}
 		if badCount != "" {
 			vkit.Fail(t, "C07/final-count", "%s\ncase: %v", badCount, trace)
